@@ -1,6 +1,6 @@
 (* Property C01 -- reads return the latest successful write (single-node key-value semantics) *)
 (* Statements only: each theorem restates the proved lemma's statement and is closed by [exact]. *)
-From NunDB Require Import Model.Base Model.Pending Model.Parse Model.Node Proofs.DbProofs.
+From NunDB Require Import Model.Base Model.Pending Model.Parse Model.Node Proofs.DbProofs Proofs.PatternProofs.
 Local Open Scope Z_scope.
 
 (* an accepted write stores exactly that value under that key and touches no other key *)
@@ -131,3 +131,117 @@ Theorem C01_inc_value_wf :
          wf_db d -> wf_db (fst (fst (inc_value d key inc opp))).
 Proof. exact inc_value_wf. Qed.
 Print Assumptions C01_inc_value_wf.
+
+(* the three matchers mean what their names say *)
+Theorem C01_starts_with_spec :
+  forall k p : str, starts_with k p = true <-> (exists r : string, k = p +++ r).
+Proof. exact starts_with_spec. Qed.
+Print Assumptions C01_starts_with_spec.
+
+Theorem C01_ends_with_spec :
+  forall k p : str, ends_with k p = true <-> (exists l : string, k = l +++ p).
+Proof. exact ends_with_spec. Qed.
+Print Assumptions C01_ends_with_spec.
+
+Theorem C01_contains_spec :
+  forall k p : str, contains k p = true <-> (exists l r : string, k = l +++ p +++ r).
+Proof. exact contains_spec. Qed.
+Print Assumptions C01_contains_spec.
+
+(* `p*` matches exactly the keys that start with p *)
+Theorem C01_pattern_prefix_spec :
+  forall k p : str,
+         S3Proofs.nochar "*" p = true ->
+         pattern_match k (p +++ "*") = true <-> (exists r : string, k = p +++ r).
+Proof. exact pattern_prefix_spec. Qed.
+Print Assumptions C01_pattern_prefix_spec.
+
+(* `*p` matches exactly the keys that end with p *)
+Theorem C01_pattern_suffix_spec :
+  forall k p : str,
+         S3Proofs.nochar "*" p = true ->
+         pattern_match k ("*" +++ p) = true <-> (exists l : string, k = l +++ p).
+Proof. exact pattern_suffix_spec_gen. Qed.
+Print Assumptions C01_pattern_suffix_spec.
+
+(* a pattern without star matches exactly the keys that contain it *)
+Theorem C01_pattern_contains_spec :
+  forall k p : str,
+         S3Proofs.nochar "*" p = true -> pattern_match k p = true <-> (exists l r : string, k = l +++ p +++ r).
+Proof. exact pattern_contains_spec. Qed.
+Print Assumptions C01_pattern_contains_spec.
+
+(* every pattern is one of the three, with ALL its stars removed (`*a*` is a prefix pattern, `a*b` a literal substring) *)
+Theorem C01_pattern_match_classify :
+  forall (k : str) (pat : string),
+         (exists q : string,
+            pat = q +++ "*" /\
+            (pattern_match k pat = true <-> (exists r : string, k = remove_char "*" q +++ r))) \/
+         ends_with pat "*" = false /\
+         (exists q : string,
+            pat = "*" +++ q /\
+            (pattern_match k pat = true <-> (exists l : string, k = l +++ remove_char "*" q))) \/
+         ends_with pat "*" = false /\
+         starts_with pat "*" = false /\
+         (pattern_match k pat = true <-> (exists l r : string, k = l +++ pat +++ r)).
+Proof. exact pattern_match_classify. Qed.
+Print Assumptions C01_pattern_match_classify.
+
+(* kept visible: `*p*` is a prefix pattern, not a substring pattern *)
+Theorem C01_pattern_star_both_prefix :
+  forall k p : str,
+         S3Proofs.nochar "*" p = true ->
+         pattern_match k ("*" +++ p +++ "*") = true <-> (exists r : string, k = p +++ r).
+Proof. exact pattern_star_both_prefix. Qed.
+Print Assumptions C01_pattern_star_both_prefix.
+
+(* keys p* lists exactly the live visible keys that start with p *)
+Theorem C01_list_keys_prefix_spec :
+  forall (d : db) (p : str) (sys : bool) (k : str),
+         wf_db d ->
+         S3Proofs.nochar "*" p = true ->
+         In k (list_keys d (p +++ "*") sys) <->
+         live d k <> None /\ (exists r : string, k = p +++ r) /\ (sys = true \/ starts_with k "$$" = false).
+Proof. exact list_keys_prefix_spec. Qed.
+Print Assumptions C01_list_keys_prefix_spec.
+
+Theorem C01_list_keys_suffix_spec :
+  forall (d : db) (p : str) (sys : bool) (k : str),
+         wf_db d ->
+         S3Proofs.nochar "*" p = true ->
+         In k (list_keys d ("*" +++ p) sys) <->
+         live d k <> None /\ (exists l : string, k = l +++ p) /\ (sys = true \/ starts_with k "$$" = false).
+Proof. exact list_keys_suffix_spec. Qed.
+Print Assumptions C01_list_keys_suffix_spec.
+
+Theorem C01_list_keys_contains_spec :
+  forall (d : db) (p : str) (sys : bool) (k : str),
+         wf_db d ->
+         S3Proofs.nochar "*" p = true ->
+         In k (list_keys d p sys) <->
+         live d k <> None /\
+         (exists l r : string, k = l +++ p +++ r) /\ (sys = true \/ starts_with k "$$" = false).
+Proof. exact list_keys_contains_spec. Qed.
+Print Assumptions C01_list_keys_contains_spec.
+
+(* `*` and the empty pattern list every live visible key *)
+Theorem C01_list_keys_all_spec :
+  forall (d : db) (sys : bool) (k : str),
+         wf_db d ->
+         (In k (list_keys d "*" sys) <-> live d k <> None /\ (sys = true \/ starts_with k "$$" = false)) /\
+         (In k (list_keys d "" sys) <-> live d k <> None /\ (sys = true \/ starts_with k "$$" = false)).
+Proof. exact list_keys_all_spec. Qed.
+Print Assumptions C01_list_keys_all_spec.
+
+(* non-vacuity: ab, aba, bab under ab*, *ab, ab *)
+Theorem C01_pattern_examples :
+  filter (fun k : str => pattern_match k "ab*") ["ab"; "aba"; "bab"] = ["ab"; "aba"] /\
+         filter (fun k : str => pattern_match k "*ab") ["ab"; "aba"; "bab"] = ["ab"; "bab"] /\
+         filter (fun k : str => pattern_match k "ab") ["ab"; "aba"; "bab"] = ["ab"; "aba"; "bab"] /\
+         list_keys pp_db "ab*" false = ["ab"; "aba"] /\
+         list_keys pp_db "*ab" false = ["ab"; "bab"] /\
+         list_keys pp_db "ab" false = ["ab"; "aba"; "bab"] /\
+         list_keys pp_db "*" false = ["ab"; "aba"; "bab"] /\
+         list_keys pp_db "" true = ["$$token"; "ab"; "aba"; "bab"] /\ list_keys pp_db "gone" true = [].
+Proof. exact pattern_examples. Qed.
+Print Assumptions C01_pattern_examples.
